@@ -49,10 +49,11 @@ def run_onestep(pid, tier, seed, cfgs_quick, cfgs_thorough, ops, extra_props=(),
         ck.bounds = {'universe': 'U5 = {/a,/ab,/a.b,/a/b,/a/b/c} + probes /x,/x/y + root', 'file_bytes': '0..2 symbolic',
                      'written_bytes': '1 symbolic', 'steps': 1, 'configs': cfgs_quick}
     else:
-        cases = step_cases(cfgs_thorough, 'U5', ops, props_, tier, seed, dlens=[0, 1, 2], perm=perm)
-        cases += step_cases(cfgs_thorough[:2], 'U8', ops, props_, tier, seed, dlens=[1], max_shapes=250, perm=perm)
+        # (with the three iteration orders of C05 every case costs three times as much: one written length, fewer U8 shapes)
+        cases = step_cases(cfgs_thorough, 'U5', ops, props_, tier, seed, dlens=[0, 1, 2] if not perm else [1], perm=perm)
+        cases += step_cases(cfgs_thorough[:2], 'U8', ops, props_, tier, seed, dlens=[1], max_shapes=250 if not perm else 80, perm=perm)
         ck.bounds = {'universe': 'U5 (all 63 shapes) and U8 (250 seeded shapes)', 'file_bytes': '0..2 symbolic',
-                     'written_bytes': '0..2 symbolic', 'steps': 1, 'configs': cfgs_thorough}
+                     'written_bytes': '0..2 symbolic' if not perm else '1 symbolic', 'steps': 1, 'configs': cfgs_thorough}
     ck.add(run_cases(prog, onestep.run_step_case, cases), 'one inductive step: every op x every path from every well-formed tree')
     scases = step_cases(cfgs_quick[:2] if tier == 'quick' else cfgs_thorough[:2], 'USYM', ops, props_, tier, seed, dlens=[1], perm=perm)
     ck.add(run_cases(prog, onestep.run_step_case, scases), 'same, symbolic-name mode: names are solver variables (lengths 1,3,2 over {a,b,.,_,U+00E9}), siblings distinct')
@@ -455,9 +456,11 @@ def writer_cases(tier, prop_, phys=False, phys_create_only=False):
             # an O_APPEND file reports offset 0 until its first write and ignores seeks for writing: the cursor contract
             # of C14 is about the library's own handles; create handles of PhysicalFS are plain files and do follow it
             seqs = [('create',), ('create', 'create')]
+        if tier != 'quick' and cfg not in ('mem', 'alt'):
+            seqs = seqs[:4] if not (cfg == 'phys' and phys_create_only) else seqs      # deeper scripts on mem/alt only (time budget)
         for modes in seqs:
             kk = (k + 1 if tier == 'quick' else k) if (cfg == 'mem' and len(modes) == 1) else max(1, k - 1)
-            if len(modes) == 3:
+            if len(modes) == 3 or (tier != 'quick' and cfg not in ('mem', 'alt') and len(modes) > 1):
                 kk = 1
             cases.append({'cfg': cfg, 'k': kk, 'sessions': len(modes), 'modes': modes, 'prop': prop_, 'pre': 2})
         if not (cfg == 'phys' and phys_create_only):
